@@ -450,9 +450,14 @@ where
 
         let open_time = start_timer!(|| format!("Opening polynomial of degree {}", p.degree()));
         let witness_time = start_timer!(|| "Computing witness polynomials");
-        let witnesses = Self::divide_at_point(&p, point);
+        // One witness per variable of the key: a polynomial declared over fewer
+        // variables has zero quotients for the remaining ones.
+        let mut witnesses = Self::divide_at_point(&p, point);
+        witnesses.resize(ck.num_vars, P::zero());
         let hiding_witnesses = if r.is_hiding() {
-            Some(Self::divide_at_point(&r.blinding_polynomial, point))
+            let mut hiding_witnesses = Self::divide_at_point(&r.blinding_polynomial, point);
+            hiding_witnesses.resize(ck.num_vars, P::zero());
+            Some(hiding_witnesses)
         } else {
             None
         };
